@@ -81,12 +81,12 @@ def known_match(known, prop, signature):
 REQUIRED_PROBES = {
     "C16": ["nary_pattern_evaluated", "axle_constructed"],
     "C17": ["last_handle_dropped"],
-    "C15": ["set_rejected", "set_rejected_while_following", "set_time_after_clock_moved", "update_while_following", "adapter_get", "motion_profile_adapter_get"],
+    "C15": ["set_rejected", "set_rejected_while_following", "set_time_after_clock_moved", "update_while_following", "adapter_get", "motion_profile_adapter_get", "call_on_ticking_clock", "history_touches_shared_clock"],
     "C02": ["two_different_errors", "nary_leading_absent", "equivalence_checked", "noncommutative_payload_combined", "read_while_inputs_borrowed"],
     "C08": ["both_sides_present", "one_sided", "axle_partial_presence", "diff_equal_all_present", "diff_waits_for_data",
             "teeth_ratio_observed"],
-    "C09": ["reconnect_same_pair", "connect_steals_both", "connect_steals_one", "disconnect_unlinked", "link_op_refused_by_live_borrow"],
-    "C13": ["relay_competing_commands", "newest_not_at_side1", "relayed_two_hops"],
+    "C09": ["reconnect_same_pair", "connect_steals_both", "connect_steals_one", "disconnect_unlinked", "link_op_refused_by_live_borrow", "read_through_own_mutable_guard"],
+    "C13": ["relay_competing_commands", "newest_not_at_side1", "relayed_two_hops", "device_pulls_followed_command"],
     "C20": ["actuator_sees_nothing", "pid_wrapper_fed", "pid_wrapper_drives_motor", "inner_writes_terminal_from_update"],
     "C04": ["time_shift_twin", "scaling_twin", "present_after_reset", "recovery_checked", "composed_twin"],
     "C05": ["err_then_2_present", "present_after_reset", "absent_deletion_twin", "recovery_checked"],
